@@ -6,8 +6,8 @@
    Cumulative quantities: fCP = units produced so far, fDC = orders received so far (stockpyl's demand_cumul),
    fcIS / fcOS / fcIO / fcOQ = cumulative inbound shipments / outbound shipments / inbound orders / order quantities
    (ghost counters: each is incremented, in the same atomic step, by exactly the amount written to the per-period
-   field fIS / fOS / fIO / fOQ). The per-period statements of the property are the differences of these identities
-   between consecutive records. Multi-product networks (bills of materials) are covered by correspondence-free
+   field fIS / fOS / fIO / fOQ). The per-period statements of the property (the C01_per_period theorems below) are proved from them:
+   between consecutive records the counters advance by exactly the per-period state variables (Sim/PerPeriod.v). Multi-product networks (bills of materials) are covered by correspondence-free
    monitors on the implementation only (see the claim). *)
 From SV Require Import Sim.Model Sim.Inv_book Sim.Inv_pipe Sim.Inv_run Sim.Main Sim.Example.
 
@@ -39,6 +39,25 @@ Proof. exact (external_edge_conservation NW inputs G D). Qed.
 Theorem C01_order_conservation : forall e n c, In e (run NW inputs) -> In c (customers (C n)) ->
   gq e (fcIO, n, c) == gq e (fcOS, n, c) + gq e (fBO, n, c) + gq e (fODI, n, c).
 Proof. exact (order_conservation NW inputs G D). Qed.
+(* ---- the same laws period by period: a = record of period t, e = record of period t+1.
+   produced in period t+1 = fCP e - fCP a (units produced is not a stockpyl state variable; the property eliminates it
+   the same way through the raw-material balance) ---- *)
+Theorem C01_per_period_inventory : forall t m, (S t < length inputs)%nat -> In m (nodes NW) ->
+  let a := nth t (run NW inputs) empty_st in let e := nth (S t) (run NW inputs) empty_st in
+  gq e (fIL, m, Ext) == gq a (fIL, m, Ext) + (gq e (fCP, m, Ext) - gq a (fCP, m, Ext)) - qsumf (fun x => gq e (fIO, m, x)) (customers (C m)).
+Proof. exact (per_period_inventory NW inputs G D). Qed.
+Theorem C01_per_period_raw_material : forall t m q, (S t < length inputs)%nat -> In q (suppliers (C m)) ->
+  let a := nth t (run NW inputs) empty_st in let e := nth (S t) (run NW inputs) empty_st in
+  gq e (fRM, m, q) == gq a (fRM, m, q) + gq e (fIS, m, q) - (gq e (fCP, m, Ext) - gq a (fCP, m, Ext)).
+Proof. exact (per_period_raw_material NW inputs G D). Qed.
+Theorem C01_per_period_edge : forall t n p, (S t < length inputs)%nat -> In p (preds (C n)) ->
+  let a := nth t (run NW inputs) empty_st in let e := nth (S t) (run NW inputs) empty_st in
+  gq e (fOS, p, Nd n) == gq e (fIS, n, Nd p) + (qsum (gl e (fSP, n, Nd p)) - qsum (gl a (fSP, n, Nd p))) + (gq e (fIDI, n, Nd p) - gq a (fIDI, n, Nd p)).
+Proof. exact (per_period_edge NW inputs G D). Qed.
+Theorem C01_per_period_order_conservation : forall t m x, (S t < length inputs)%nat -> In x (customers (C m)) ->
+  let a := nth t (run NW inputs) empty_st in let e := nth (S t) (run NW inputs) empty_st in
+  gq e (fBO, m, x) + gq e (fODI, m, x) + gq e (fOS, m, x) == gq a (fBO, m, x) + gq a (fODI, m, x) + gq e (fIO, m, x).
+Proof. exact (per_period_order_conservation NW inputs G D). Qed.
 End C01.
 
 Example C01_nonvacuous : good ex_net /\ dem_ok ex_inputs /\
@@ -50,3 +69,7 @@ Print Assumptions C01_raw_material_balance.
 Print Assumptions C01_edge_conservation.
 Print Assumptions C01_external_edge_conservation.
 Print Assumptions C01_order_conservation.
+Print Assumptions C01_per_period_inventory.
+Print Assumptions C01_per_period_raw_material.
+Print Assumptions C01_per_period_edge.
+Print Assumptions C01_per_period_order_conservation.
